@@ -88,6 +88,9 @@ pub struct Chip127x {
     pending: VecDeque<Ev>,
     pub op: Option<OpKind>,
     pulse: bool,
+    /// see Chip126x::irq_safe: no interrupt between a read of RegIrqFlags and the next write
+    pub irq_safe: bool,
+    hold: bool,
     /// (RegRxNbBytes, RegFifoRxCurrentAddr) forced at the next RxDone
     pub report_override: Option<(u8, u8)>,
     pub next_packet: Option<Vec<u8>>,
@@ -114,6 +117,8 @@ impl Chip127x {
             pending: VecDeque::new(),
             op: None,
             pulse: false,
+            irq_safe: true,
+            hold: false,
             report_override: None,
             next_packet: None,
             transcript: Vec::new(),
@@ -439,6 +444,7 @@ impl ChipModel for Chip127x {
         if let Some(first) = mosi.first().copied() {
             let write = first & 0x80 != 0;
             let addr = first & 0x7F;
+            self.hold = self.irq_safe && !write && addr == REG_IRQ_FLAGS;
             for i in 1..mosi.len() {
                 let a = if addr == REG_FIFO { REG_FIFO } else { (addr as usize + i - 1) as u8 & 0x7F };
                 if write {
@@ -458,7 +464,7 @@ impl ChipModel for Chip127x {
     }
 
     fn tick(&mut self) {
-        if self.op.is_some() {
+        if self.op.is_some() && !self.hold {
             if let Some(f) = self.pending.front_mut() {
                 if f.after > 0 {
                     f.after -= 1;
@@ -473,6 +479,7 @@ impl ChipModel for Chip127x {
     }
 
     fn irq_line(&mut self) -> bool {
+        self.hold = false;
         if self.pulse {
             self.pulse = false;
             return true;
